@@ -19,7 +19,7 @@ def proximalStep (x0 f : Nat) (γ : Coef) : M (Nat × Nat × Nat) := do
   let fx ← newLeafE
   let ggx ← ptSmul γ gx
   let x ← ptSub x0 ggx
-  addPoint f ⟨x, gx, fx⟩
+  addPoint f (Triple.mk3 x gx fx)
   pure (x, gx, fx)
 
 /-- `inexact_gradient_step(x0, f, gamma, epsilon, notion)` -/
@@ -63,7 +63,7 @@ def linearOptimizationStep (dir ind : Nat) : M (Nat × Nat × Nat) := do
   let x ← newLeafP
   let gx ← ptNeg dir
   let fx ← newLeafE
-  addPoint ind ⟨x, gx, fx⟩
+  addPoint ind (Triple.mk3 x gx fx)
   pure (x, gx, fx)
 
 /-- `bregman_gradient_step(gx0, sx0, mirror_map, gamma)` -/
@@ -72,7 +72,7 @@ def bregmanGradientStep (gx0 sx0 h : Nat) (γ : Coef) : M (Nat × Nat × Nat) :=
   let hx ← newLeafE
   let gg ← ptSmul γ gx0
   let sx ← ptSub sx0 gg
-  addPoint h ⟨x, sx, hx⟩
+  addPoint h (Triple.mk3 x sx hx)
   pure (x, sx, hx)
 
 /-- `bregman_proximal_step(sx0, mirror_map, min_function, gamma)` -/
@@ -83,8 +83,8 @@ def bregmanProximalStep (sx0 h f : Nat) (γ : Coef) : M (Nat × Nat × Nat × Na
   let gg ← ptSmul γ gx
   let sx ← ptSub sx0 gg
   let hx ← newLeafE
-  addPoint f ⟨x, gx, fx⟩
-  addPoint h ⟨x, sx, hx⟩
+  addPoint f (Triple.mk3 x gx fx)
+  addPoint h (Triple.mk3 x sx hx)
   pure (x, sx, hx, gx, fx)
 
 /-- `epsilon_subgradient_step(x0, f, gamma)` -/
@@ -96,7 +96,7 @@ def epsilonSubgradientStep (x0 f : Nat) (γ : Coef) : M (Nat × Nat × Nat × Na
   let x ← ptSub x0 gg
   let y ← newLeafP
   let fy ← newLeafE
-  addPoint f ⟨y, g0, fy⟩
+  addPoint f (Triple.mk3 y g0 fy)
   let g0y ← ptIp g0 y
   let fstar ← exSub g0y fy
   let s1 ← exAdd f0 fstar
@@ -119,11 +119,11 @@ def inexactProximalStep (x0 f : Nat) (γ : Coef) (opt : Nat) : M (Nat × Nat × 
     let v ← newLeafP
     let w ← newLeafP
     let fw ← newLeafE
-    addPoint f ⟨w, v, fw⟩
+    addPoint f (Triple.mk3 w v fw)
     let x ← newLeafP
     let gx ← newLeafP
     let fx ← newLeafE
-    addPoint f ⟨x, gx, fx⟩
+    addPoint f (Triple.mk3 x gx fx)
     let epsVar ← newLeafE
     let d ← ptSub x x0
     let gv ← ptSmul γ v
@@ -146,7 +146,7 @@ def inexactProximalStep (x0 f : Nat) (γ : Coef) (opt : Nat) : M (Nat × Nat × 
     let t ← ptSub x0 ggx
     let x ← ptAdd t e
     let fx ← newLeafE
-    addPoint f ⟨x, gx, fx⟩
+    addPoint f (Triple.mk3 x gx fx)
     let epsVar ← newLeafE
     let e2 ← ptIp e e
     let e2h ← exDiv e2 2
@@ -161,8 +161,8 @@ def inexactProximalStep (x0 f : Nat) (γ : Coef) (opt : Nat) : M (Nat × Nat × 
     let v ← ptDiv d γ
     let fw ← newLeafE
     let fx ← newLeafE
-    addPoint f ⟨x, gx, fx⟩
-    addPoint f ⟨w, v, fw⟩
+    addPoint f (Triple.mk3 x gx fx)
+    addPoint f (Triple.mk3 w v fw)
     let epsVar ← newLeafE
     let fxfw ← exSub fx fw
     let xw ← ptSub x w
